@@ -84,6 +84,18 @@ Definition smpp5_ops : list op := [
 ].
 
 Close Scope string_scope.
+
+(* SMPP v5.0 section 4.7.5, table 4-42 "command_id values": the operations of the protocol, transcribed a second
+   time and independently of [smpp5_ops] (requests 0x000000xx, responses 0x800000xx; the values the table marks
+   "reserved" are not operations).  The registry of the implementation must be exactly this set. *)
+Definition spec_command_ids : list N := [
+  0x00000001; 0x00000002; 0x00000003; 0x00000004; 0x00000005; 0x00000006; 0x00000007; 0x00000008; 0x00000009;
+  0x0000000B; 0x00000015; 0x00000021; 0x00000102; 0x00000103; 0x00000111; 0x00000112; 0x00000113;
+  0x80000000; 0x80000001; 0x80000002; 0x80000003; 0x80000004; 0x80000005; 0x80000006; 0x80000007; 0x80000008;
+  0x80000009; 0x80000015; 0x80000021; 0x80000103; 0x80000111; 0x80000112; 0x80000113 ].
+(* a response carries the id of its request with bit 31 set; generic_nack (0x80000000) answers nothing in particular *)
+Definition resp_id (req : N) : N := req + 0x80000000.
+
 Fixpoint find_op (ops : list op) (id : N) : option op :=
   match ops with
   | [] => None
